@@ -143,7 +143,7 @@ func TestC16(t *testing.T) {
 				get = raceOp{"Get", func(_ *raceEnv, g, i int) {
 					_, _ = f.Get(ctx, []byte(fmt.Sprintf("k%d", i%3)), func(ctx context.Context) (interface{}, error) {
 						if i%5 == 0 {
-							return nil, berr{1}
+							return nil, berr{n: 1}
 						}
 
 						return i, nil
@@ -159,7 +159,7 @@ func TestC16(t *testing.T) {
 				get = raceOp{"Get", func(_ *raceEnv, g, i int) {
 					_, _ = f.Get(ctx, []byte(fmt.Sprintf("k%d", i%3)), func(ctx context.Context) (int, error) {
 						if i%5 == 0 {
-							return 0, berr{1}
+							return 0, berr{n: 1}
 						}
 
 						return i, nil
